@@ -722,6 +722,8 @@ func controlRecs(r *rand.Rand, ms int64) []rec {
 	return []rec{{ms: ms, key: []byte{0, 0, 0, typ}, value: []byte{0, 0, 0, 0, 0, byte(r.Intn(9))}}}
 }
 
+var sparseW1 = os.Getenv("VERIF_C05_SPARSEW1") != "0"
+
 func genPlan(r *rand.Rand, class int, thorough bool) []entryPlan {
 	ne := 1 + r.Intn(4)
 	var plan []entryPlan
@@ -749,6 +751,8 @@ func genPlan(r *rand.Rand, class int, thorough bool) []entryPlan {
 		switch k {
 		case "w1":
 			e.codec = 1 + r.Intn(4)
+			// compacted wrapper (gaps in the relative inner offsets): see known finding D15
+			e.sparse = sparseW1 && r.Intn(2) == 0
 		case "b2":
 			e.codec = r.Intn(5)
 			e.txn = r.Intn(5) == 0
@@ -761,6 +765,103 @@ func genPlan(r *rand.Rand, class int, thorough bool) []entryPlan {
 		plan = append(plan, e)
 	}
 	return plan
+}
+
+// ---------------------------------------------------------------- pages (observational)
+
+// pagesTest: holders decode a record set and keep the key/value Bytes open; meanwhile churners decode and
+// release other record sets (their pages go back to the pool and are reused); the held bytes must stay intact
+// until released.
+func pagesTest(r *rand.Rand, holders, churners, rounds int) string {
+	type held struct {
+		b    protocol.Bytes
+		want []byte
+	}
+	mk := func(seed int64, class int) ([]byte, []rec) {
+		lr := rand.New(rand.NewSource(seed))
+		rs := genRecs(lr, 2+lr.Intn(4), class, false)
+		set, err := produceProto(2, []int{0, 2, 4}[lr.Intn(3)], rs)
+		if err != nil {
+			return nil, nil
+		}
+		return set, rs
+	}
+	var wg sync.WaitGroup
+	stop := make(chan struct{})
+	errs := make(chan string, holders+churners)
+	for c := 0; c < churners; c++ {
+		wg.Add(1)
+		seed := r.Int63()
+		go func() {
+			defer wg.Done()
+			lr := rand.New(rand.NewSource(seed))
+			for {
+				select {
+				case <-stop:
+					return
+				default:
+				}
+				set, _ := mk(lr.Int63(), 2)
+				if xs := fetchRecordSet(set, 0); len(xs) == 0 {
+					errs <- "churner decoded nothing"
+					return
+				}
+			}
+		}()
+	}
+	var hw sync.WaitGroup
+	for h := 0; h < holders; h++ {
+		hw.Add(1)
+		seed := r.Int63()
+		go func() {
+			defer hw.Done()
+			defer func() {
+				if p := recover(); p != nil {
+					errs <- fmt.Sprintf("panic:%v", p)
+				}
+			}()
+			lr := rand.New(rand.NewSource(seed))
+			for round := 0; round < rounds; round++ {
+				set, rs := mk(lr.Int63(), 2)
+				var rset protocol.RecordSet
+				if _, err := rset.ReadFrom(bufio.NewReader(bytes.NewReader(withSize(set)))); err != nil {
+					errs <- "holder decode: " + err.Error()
+					return
+				}
+				var hs []held
+				for i := 0; ; i++ {
+					rec, err := rset.Records.ReadRecord()
+					if err != nil {
+						break
+					}
+					if rec.Key != nil {
+						hs = append(hs, held{rec.Key, rs[i].key})
+					}
+					if rec.Value != nil {
+						hs = append(hs, held{rec.Value, rs[i].value})
+					}
+				}
+				time.Sleep(time.Duration(lr.Intn(3)) * time.Millisecond) // let the churners recycle pages
+				for _, x := range hs {
+					got, err := protocol.ReadAll(x.b)
+					if err != nil || !bytes.Equal(got, x.want) {
+						errs <- fmt.Sprintf("held bytes changed (len %d, want len %d)", len(got), len(x.want))
+						return
+					}
+					x.b.Close()
+				}
+			}
+		}()
+	}
+	hw.Wait()
+	close(stop)
+	wg.Wait()
+	select {
+	case e := <-errs:
+		return e
+	default:
+		return "ok"
+	}
 }
 
 // ---------------------------------------------------------------- main
@@ -866,6 +967,16 @@ func main() {
 		os.Exit(2)
 	}
 	defer o.Close()
+
+	if mode == "pages" {
+		for i := 0; i < 3; i++ {
+			emit(fmt.Sprintf("pages 6 6 %d", 30+i), pagesTest(r, 6, 6, 30+i))
+		}
+		return
+	}
+	if mode == "all" {
+		emit("pages 3 3 6", pagesTest(r, 3, 3, 6))
+	}
 
 	// --- crc validation
 	if mode == "all" || mode == "crc" {
